@@ -46,6 +46,22 @@ func c04Exec(tpl *pongo2.Template, st c04Step) (string, string) {
 		var buf bytes.Buffer
 		err = tpl.ExecuteWriterUnbuffered(ctx, &buf)
 		out = buf.String()
+	case "ExecuteBlocks":
+		// every block the program may define (names are generated as blk<N>, content, side)
+		names := []string{"content", "side", "nosuchblock"}
+		for i := 1; i <= 12; i++ {
+			names = append(names, fmt.Sprintf("blk%d", i))
+		}
+		var m map[string]string
+		m, err = tpl.ExecuteBlocks(ctx, names)
+		keys := make([]string, 0, len(m))
+		for k := range m {
+			keys = append(keys, k)
+		}
+		sortStringsInPlace(keys)
+		for _, k := range keys {
+			out += k + "=" + m[k] + ";"
+		}
 	default:
 		out, err = tpl.Execute(ctx)
 	}
@@ -101,7 +117,7 @@ func genC04Hist(t *rapid.T, maxLen int) []c04Step {
 	pool := []int{drawInt(t, 0, 11, "v0"), drawInt(t, 0, 11, "v1"), drawInt(t, 0, 11, "v2")}
 	var hist []c04Step
 	for i := 0; i < n; i++ {
-		st := c04Step{Variant: pick(t, "variant", pool), Entry: pick(t, "entry", []string{"Execute", "ExecuteBytes", "ExecuteWriter", "ExecuteWriterUnbuffered"})}
+		st := c04Step{Variant: pick(t, "variant", pool), Entry: pick(t, "entry", []string{"Execute", "Execute", "ExecuteBytes", "ExecuteWriter", "ExecuteWriterUnbuffered", "ExecuteBlocks"})}
 		switch drawInt(t, 0, 5, "fault") {
 		case 0, 1:
 			st.FailAt = drawInt(t, 1, 6, "failat")
